@@ -307,7 +307,7 @@ class C19(Profile):
                "create_feature": 3, "create_source": 3, "create_section": 4, "create_property": 2,
                "append_dim": 5, "set_attr": 22, "set_dim": 2, "link_append": 3, "set_metadata": 2,
                "set_role": 5, "delete": 1, "data_write": 2, "prop_values": 1, "toggle_auto": 3,
-               "force_ts": 7, "restart": 3, "link_dim": 1, "create_frame": 2, "df_op": 4}
+               "force_ts": 7, "restart": 3, "link_dim": 1, "create_frame": 2, "df_op": 4, "refused": 4}
     reopen_introspect = True
     never_off = ("restart", "set_attr", "force_ts", "toggle_auto", "append_dim")
     fault_kinds = ("restart_rw", "restart_ro", "clock:stall", "clock:jump", "clock:back", "toggle_auto")
